@@ -844,6 +844,14 @@ func (s *c10Seq) step(n int) bool {
 	// the request as the agent would read it off the proxy
 	var raw strings.Builder
 	fmt.Fprintf(&raw, "%s %s HTTP/1.1\r\nHost: %s\r\nUser-Agent: c10\r\n", st.Method, target, host)
+	// every other request carries a forwarding-style field such as a client (or a hop in front of the proxy) may send;
+	// none of them has any bearing on the session cookie's attributes
+	if k := (n*7 + len(target)) % 16; k < 8 {
+		fwd := [][2]string{{"X-Forwarded-Proto", "http"}, {"X-Forwarded-Proto", "HTTP"}, {"X-Forwarded-Proto", "http, https"}, {"X-Forwarded-Proto", "ws"},
+			{"X-Forwarded-Ssl", "off"}, {"Forwarded", "for=192.0.2.1;proto=http"}, {"X-Forwarded-Proto", "https"}, {"Front-End-Https", "off"}}[k]
+		fmt.Fprintf(&raw, "%s: %s\r\n", fwd[0], fwd[1])
+		s.kinds["forwarding-field"] = true
+	}
 	for _, ln := range lines {
 		fmt.Fprintf(&raw, "Cookie: %s\r\n", ln)
 	}
